@@ -133,6 +133,33 @@ def call(px, st, name, t, args, fid, fn):
                 for s3, rv in px.call_closure(s2, args[1], [px.pos_payload(s2, args[0])]):
                     outs.append((s3, rv if rv == ('PANIC',) else ('adt', 'core::std::option::Option', 'Some', (rv,))))
         return outs
+    if n.endswith('option::Option::<T>::and_then') or n.endswith('result::Result::<T, E>::and_then'):
+        outs = []
+        for tag, s2 in px.decide_tag(st, args[0]):
+            if tag == 'neg':
+                if 'option::Option' in n:
+                    outs.append((s2, ('adt', 'core::std::option::Option', 'None', ())))
+                else:
+                    outs.append((s2, ('adt', 'core::std::result::Result', 'Err', (px.neg_payload(s2, args[0]),))))
+            else:
+                outs.extend(px.call_closure(s2, args[1], [px.pos_payload(s2, args[0])]))
+        return outs
+    if n.endswith('option::Option::<T>::unwrap_or_else') or n.endswith('result::Result::<T, E>::unwrap_or_else'):
+        outs = []
+        for tag, s2 in px.decide_tag(st, args[0]):
+            if tag == 'pos':
+                outs.append((s2, px.pos_payload(s2, args[0])))
+            else:
+                outs.extend(px.call_closure(s2, args[1], [] if 'option::Option' in n else [px.neg_payload(s2, args[0])]))
+        return outs
+    if n.endswith('option::Option::<T>::ok_or'):
+        outs = []
+        for tag, s2 in px.decide_tag(st, args[0]):
+            if tag == 'pos':
+                outs.append((s2, ('adt', 'core::std::result::Result', 'Ok', (px.pos_payload(s2, args[0]),))))
+            else:
+                outs.append((s2, ('adt', 'core::std::result::Result', 'Err', (args[1],))))
+        return outs
     if n.endswith('option::Option::<T>::or_else'):
         outs = []
         for tag, s2 in px.decide_tag(st, args[0]):
